@@ -319,3 +319,52 @@ def partial_check(ctx):
         ctx.oblige(f"C13/Partial.__check_init__/post/accepted_only_if_child_shape_is_the_indexed_shape#{i}", child == sub, p.cond, props, fn=q + ".__check_init__", replay=dict(kind="shapes", cls="Partial", vars={}))
     for i, p in enumerate(bad):
         ctx.oblige(f"C13/Partial.__check_init__/post/raises_only_on_mismatch#{i}", z3.And(child != sub, z3.BoolVal(p.value.exc == "ValueError")), p.cond, props, fn=q + ".__check_init__", replay=dict(kind="shapes", cls="Partial", vars={}))
+
+
+@family("shapes/declared_shapes_of_wrappers", ["C08", "C13"])
+def declared_shapes(ctx):
+    """the declared shape / cond_shape of the thin wrappers are the child's (or the stated raw condition shape)"""
+    it = ctx.interp
+    props = ["C08", "C13"]
+    s, c, raw = SymTuple(Seq("child_shape")), SymTuple(Seq("child_cond_shape")), SymTuple(Seq("raw_cond_shape"))
+    for cond_name, cs in (("conditional", c), ("unconditional", None)):
+        child = AbsBij(z3.Const("b", BIJ), shape=s, cond_shape=cs)
+        for qual, fields, want_shape, want_cond in (
+            ("flowjax.bijections.utils.Invert", dict(bijection=child), s, cs),
+            ("flowjax.bijections.jax_transforms.Scan", dict(bijection=child), s, cs),
+        ):
+            cls = it.repo_class(qual)
+            o = Obj(cls, **fields)
+            name = qual.rsplit(".", 1)[1]
+            for attr, want in (("shape", want_shape), ("cond_shape", want_cond)):
+                ps = it.explore(lambda o=o, attr=attr: getattr(o, attr))
+                ok = len(ps) == 1 and ps[0].outcome == "return" and ps[0].value is want
+                ctx.oblige(f"C08/{name}.{attr}[{cond_name}]/post/is_the_childs", bool(ok), [], props, kind="struct", fn=f"{qual}.{attr}", replay=dict(kind="shapes", cls=name, vars={}))
+        pcls = it.repo_class("flowjax.bijections.utils.Partial")
+        o = Obj(pcls, bijection=child, idxs="idxs", shape=SymTuple(Seq("outer_shape")))
+        ps = it.explore(lambda: o.cond_shape)
+        ctx.oblige(f"C08/Partial.cond_shape[{cond_name}]/post/is_the_childs", len(ps) == 1 and ps[0].outcome == "return" and ps[0].value is cs, [], props, kind="struct", fn="flowjax.bijections.utils.Partial.cond_shape")
+        ecls = it.repo_class("flowjax.bijections.utils.EmbedCondition")
+        ps = [p for p in it.explore(lambda: ecls(child, "embedding_net", raw)) if p.outcome == "return"]
+        ok = len(ps) == 1
+        ctx.oblige(f"C08/EmbedCondition.__init__[{cond_name}]/struct/constructs", ok, [], props, kind="applicability", fn="flowjax.bijections.utils.EmbedCondition.__init__")
+        if ok:
+            e = ps[0].value
+            pe = it.explore(lambda: e.shape)
+            ctx.oblige(f"C08/EmbedCondition[{cond_name}]/post/shape_is_the_childs_and_cond_shape_is_the_raw_one", len(pe) == 1 and pe[0].value is s and e.cond_shape is raw and e.bijection is child and e.embedding_net == "embedding_net", [], props, kind="struct",
+                       fn="flowjax.bijections.utils.EmbedCondition.__init__")
+    # Loc / AdditiveCondition constructors declare the shapes they are given
+    it.global_overrides["flowjax.bijections.affine"] = {"arraylike_to_array": lambda a, *r, **k: a}
+    lcls = it.repo_class("flowjax.bijections.affine.Loc")
+
+    class Arr:
+        shape = SymTuple(Seq("loc_shape"))
+
+    arr = Arr()
+    ps = [p for p in it.explore(lambda: lcls(arr)) if p.outcome == "return"]
+    ctx.oblige("C08/Loc.__init__/post/shape_of_loc", len(ps) == 1 and ps[0].value.shape is Arr.shape and ps[0].value.loc is arr, [], props, kind="struct", fn="flowjax.bijections.affine.Loc.__init__")
+    acls = it.repo_class("flowjax.bijections.affine.AdditiveCondition")
+    sh, cs_ = SymTuple(Seq("shape")), SymTuple(Seq("cond_shape"))
+    ps = [p for p in it.explore(lambda: acls("module", sh, cs_)) if p.outcome == "return"]
+    ctx.oblige("C08/AdditiveCondition.__init__/post/declares_the_given_shapes", len(ps) == 1 and ps[0].value.shape is sh and ps[0].value.cond_shape is cs_ and ps[0].value.module == "module", [], props, kind="struct",
+               fn="flowjax.bijections.affine.AdditiveCondition.__init__")
